@@ -588,6 +588,9 @@ func (c *Ctx) cfgStr() string {
 		return cfgStrPool[r.Intn(len(cfgStrPool))]
 	}
 	n := r.Range(1, 8)
+	if r.Chance(8) {
+		n = []int{127, 128, 129, 200, 255, 256, 300}[r.Intn(7)] // long values: a set option is kept whatever its length
+	}
 	b := make([]byte, n)
 	for i := range b {
 		b[i] = byte(r.Range(33, 126))
